@@ -16,7 +16,7 @@ def c05(tier):
         for cpus in (2, 4):
             runs.append(H("c05_barriers", "plain", 80, "12,12,8", cpus=cpus, timeout_per_case=120,
                           params=dict(maxphases=200, oversub=1)))
-        runs.append(H("c05_barriers", "tsan", 60, "4,4,4,4", timeout_per_case=120))
+        runs.append(H("c05_barriers", "tsan", 60, "4,4,4,4", timeout_per_case=120, params=dict(maxphases=100)))
     return runs
 
 
